@@ -2,6 +2,10 @@ module verifharness
 
 go 1.23
 
+// run the checks with the runtime defaults (GODEBUG) of the library's own go line (go 1.18 in /repo/go.mod):
+// timer channels, loop-independent runtime semantics etc. behave as they do in the repository's own tests
+godebug default=go1.18
+
 require (
 	github.com/TeaEntityLab/fpGo/v2 v2.3.3
 	github.com/anishathalye/porcupine v1.3.0
